@@ -699,3 +699,246 @@ func fmtTV(l []TV) string {
 	b.WriteString("]")
 	return b.String()
 }
+
+// ---- index listings
+
+// Listing is what the shard reports about its series.
+type Listing struct {
+	Measurements []string
+	TagKeys      map[string][]string            // measurement -> keys
+	TagValues    map[string]map[string][]string // measurement -> key -> values
+	Cardinality  int64
+	Series       []string // series keys via MeasurementSeriesByExprIterator (all measurements)
+}
+
+func (l Listing) String() string {
+	return fmt.Sprintf("measurements=%v tagkeys=%v tagvalues=%v cardinality=%d series=%v", l.Measurements, l.TagKeys, l.TagValues, l.Cardinality, l.Series)
+}
+
+// ModelListing computes the listing the model implies: exactly the series that still have points.
+func (m *Model) ModelListing(tagKeyUniverse []string) Listing {
+	l := Listing{TagKeys: map[string][]string{}, TagValues: map[string]map[string][]string{}}
+	ms := map[string]bool{}
+	tk := map[string]map[string]bool{}
+	tv := map[string]map[string]map[string]bool{}
+	for k, s := range m.Series {
+		l.Series = append(l.Series, k)
+		ms[s.Measurement] = true
+		if tk[s.Measurement] == nil {
+			tk[s.Measurement] = map[string]bool{}
+			tv[s.Measurement] = map[string]map[string]bool{}
+		}
+		for key, val := range s.Tags {
+			tk[s.Measurement][key] = true
+			if tv[s.Measurement][key] == nil {
+				tv[s.Measurement][key] = map[string]bool{}
+			}
+			tv[s.Measurement][key][val] = true
+		}
+	}
+	for n := range ms {
+		l.Measurements = append(l.Measurements, n)
+	}
+	sort.Strings(l.Measurements)
+	sort.Strings(l.Series)
+	for n, ks := range tk {
+		for k := range ks {
+			l.TagKeys[n] = append(l.TagKeys[n], k)
+			if l.TagValues[n] == nil {
+				l.TagValues[n] = map[string][]string{}
+			}
+			for v := range tv[n][k] {
+				l.TagValues[n][k] = append(l.TagValues[n][k], v)
+			}
+			sort.Strings(l.TagValues[n][k])
+		}
+		sort.Strings(l.TagKeys[n])
+	}
+	l.Cardinality = int64(len(m.Series))
+	return l
+}
+
+// RealListing queries the store.
+func (e *Env) RealListing(tagKeyUniverse []string) (Listing, error) {
+	ctx := context.Background()
+	l := Listing{TagKeys: map[string][]string{}, TagValues: map[string]map[string][]string{}}
+	names, err := e.Store.MeasurementNames(ctx, nil, DB, "", nil)
+	if err != nil {
+		return l, fmt.Errorf("MeasurementNames: %w", err)
+	}
+	for _, n := range names {
+		l.Measurements = append(l.Measurements, string(n))
+	}
+	sort.Strings(l.Measurements)
+	tks, err := e.Store.TagKeys(ctx, nil, []uint64{ShardID}, nil)
+	if err != nil {
+		return l, fmt.Errorf("TagKeys: %w", err)
+	}
+	for _, tk := range tks {
+		ks := append([]string(nil), tk.Keys...)
+		sort.Strings(ks)
+		if len(ks) > 0 {
+			l.TagKeys[tk.Measurement] = ks
+		}
+	}
+	for _, key := range tagKeyUniverse {
+		cond, _ := influxql.ParseExpr(fmt.Sprintf("_tagKey = '%s'", key))
+		tvs, err := e.Store.TagValues(ctx, nil, []uint64{ShardID}, cond)
+		if err != nil {
+			return l, fmt.Errorf("TagValues: %w", err)
+		}
+		for _, tv := range tvs {
+			for _, kv := range tv.Values {
+				if l.TagValues[tv.Measurement] == nil {
+					l.TagValues[tv.Measurement] = map[string][]string{}
+				}
+				l.TagValues[tv.Measurement][kv.Key] = append(l.TagValues[tv.Measurement][kv.Key], kv.Value)
+			}
+		}
+	}
+	for _, kv := range l.TagValues {
+		for k := range kv {
+			sort.Strings(kv[k])
+		}
+	}
+	l.Cardinality, err = e.Store.SeriesCardinality(ctx, DB)
+	if err != nil {
+		return l, fmt.Errorf("SeriesCardinality: %w", err)
+	}
+	idx, err := e.Shard.Index()
+	if err != nil {
+		return l, err
+	}
+	sfile, err := e.Shard.SeriesFile()
+	if err != nil {
+		return l, err
+	}
+	is := tsdb.IndexSet{Indexes: []tsdb.Index{idx}, SeriesFile: sfile}
+	for _, n := range names {
+		itr, err := is.MeasurementSeriesByExprIterator(n, nil)
+		if err != nil {
+			return l, fmt.Errorf("MeasurementSeriesByExprIterator: %w", err)
+		}
+		if itr == nil {
+			continue
+		}
+		for {
+			el, err := itr.Next()
+			if err != nil {
+				itr.Close()
+				return l, err
+			}
+			if el.SeriesID == 0 {
+				break
+			}
+			name, tags := sfile.Series(el.SeriesID)
+			if name == nil {
+				continue
+			}
+			l.Series = append(l.Series, string(models.MakeKey(name, tags)))
+		}
+		itr.Close()
+	}
+	sort.Strings(l.Series)
+	return l, nil
+}
+
+// CheckListings compares the listings of the shard with the model.
+func (e *Env) CheckListings(m *Model, tagKeyUniverse []string) (string, string) {
+	v, s, _ := e.CheckListingsTolerant(m, tagKeyUniverse, false)
+	return v, s
+}
+
+// CheckListingsTolerant is CheckListings; with tolerate set, tag values that
+// linger after their last series was removed (while the measurement lives on)
+// are reported through soft and masked, so the other comparisons still run.
+func (e *Env) CheckListingsTolerant(m *Model, tagKeyUniverse []string, tolerate bool) (viol, sig, soft string) {
+	want := m.ModelListing(tagKeyUniverse)
+	got, err := e.RealListing(tagKeyUniverse)
+	if err != nil {
+		return "listing failed: " + err.Error(), "listing-error", ""
+	}
+	if tolerate {
+		for mn, kv := range got.TagValues {
+			if _, live := want.TagKeys[mn]; !live {
+				continue
+			}
+			for k, vs := range kv {
+				ws := map[string]bool{}
+				for _, x := range want.TagValues[mn][k] {
+					ws[x] = true
+				}
+				var keep []string
+				for _, x := range vs {
+					if ws[x] {
+						keep = append(keep, x)
+					} else if soft == "" {
+						soft = fmt.Sprintf("tag value %s.%s=%q is listed although its last series was removed (other series of the measurement remain)", mn, k, x)
+					}
+				}
+				kv[k] = keep
+			}
+		}
+	}
+	v, s := compareListings(got, want, tagKeyUniverse)
+	return v, s, soft
+}
+
+func compareListings(got, want Listing, tagKeyUniverse []string) (string, string) {
+	cmp := func(what string, g, w []string) (string, string) {
+		gs, ws := map[string]bool{}, map[string]bool{}
+		for _, x := range g {
+			gs[x] = true
+		}
+		for _, x := range w {
+			ws[x] = true
+		}
+		for _, x := range w {
+			if !gs[x] {
+				return fmt.Sprintf("%s: %q has points in the shard but is not listed (listed %v)", what, x, g), "listing:missing-" + strings.SplitN(what, " ", 2)[0]
+			}
+		}
+		for _, x := range g {
+			if !ws[x] {
+				return fmt.Sprintf("%s: %q is listed although all of its points were removed (expected %v)", what, x, w), "listing:lingering-" + strings.SplitN(what, " ", 2)[0]
+			}
+		}
+		return "", ""
+	}
+	if v, s := cmp("measurement names", got.Measurements, want.Measurements); v != "" {
+		return v, s
+	}
+	if v, s := cmp("series of the index", got.Series, want.Series); v != "" {
+		return v, s
+	}
+	for _, mn := range want.Measurements {
+		if v, s := cmp("tagkey list of "+mn, got.TagKeys[mn], want.TagKeys[mn]); v != "" {
+			return v, s
+		}
+		for _, k := range tagKeyUniverse {
+			if v, s := cmp("tagvalue list of "+mn+"."+k, got.TagValues[mn][k], want.TagValues[mn][k]); v != "" {
+				return v, s
+			}
+		}
+	}
+	for mn := range got.TagKeys {
+		if _, ok := want.TagKeys[mn]; !ok && len(got.TagKeys[mn]) > 0 {
+			return fmt.Sprintf("tag keys are listed for measurement %q which has no points left", mn), "listing:lingering-tagkey"
+		}
+	}
+	for mn, kv := range got.TagValues {
+		for k, vs := range kv {
+			if len(vs) > 0 && len(want.TagValues[mn][k]) == 0 {
+				return fmt.Sprintf("tag values %v are listed for %s.%s which has no points left", vs, mn, k), "listing:lingering-tagvalue"
+			}
+		}
+	}
+	if got.Cardinality != want.Cardinality {
+		kind := "high"
+		if got.Cardinality < want.Cardinality {
+			kind = "low"
+		}
+		return fmt.Sprintf("series cardinality is %d, %d series have points", got.Cardinality, want.Cardinality), "listing:cardinality-" + kind
+	}
+	return "", ""
+}
